@@ -3,7 +3,7 @@
 Case format (JSON):
   cfg     {"learn": "on"|"off"|"ips"|null, "eval": "on"|"ips"|null, "record": [names]}
   env     {"batch": null|n, "gen": bool (read() returns a generator), "inters": [[ [key, valspec], … ], …]}
-          valspec: null | int | str | {"f":[n,d]} float | {"l":[…]} list | {"t":[…]} tuple | {"d":[[k,v],…]} dict
+          valspec: null | int | str | {"f":[n,d]} float | {"b":0|1} bool | {"l":[…]} list | {"t":[…]} tuple | {"d":[[k,v],…]} dict
           key 'rewards' holds either {"l":[numbers]} (sequence rewards) or {"rfn":{kind,…}} (functional rewards)
   learner {"fmt","has_score","batch_mode","kw_keys","script":[{"idx","free","p","kw","s"}]}
 """
@@ -26,6 +26,8 @@ def mk(v):
         return v
     if "f" in v:
         return v["f"][0] / v["f"][1]
+    if "b" in v:
+        return bool(v["b"])
     if "l" in v:
         return [mk(x) for x in v["l"]]
     if "t" in v:
@@ -66,12 +68,15 @@ def close(a, b):
     return False
 
 
-def ceq(a, b):
-    """structural equality of canonical values with numeric tolerance"""
-    if isnum(a) or isnum(b):
+def ceq(a, b, tol=False):
+    """structural equality of canonical values.  Exact, except that with `tol` numbers may differ by the float noise of
+    one division/multiplication: only computed rewards (r/p, score*r/p against the model's exact rationals) are compared
+    that way -- contexts, actions, probabilities, kwargs and extra fields are values the code must pass on untouched,
+    and an integer id that came back rounded through float() must not compare equal"""
+    if tol and (isnum(a) or isnum(b)):
         return close(a, b)
     if isinstance(a, list) and isinstance(b, list):
-        return len(a) == len(b) and all(ceq(x, y) for x, y in zip(a, b))
+        return len(a) == len(b) and all(ceq(x, y, tol) for x, y in zip(a, b))
     return a == b
 
 
@@ -389,7 +394,7 @@ def monitor(case, impl):
                     return fails, tags
                 names = {"ctx": "context", "a": "action", "r": "reward", "p": "probability", "kw": "kwargs"}
                 for k in ("ctx", "a", "r", "p", "kw"):
-                    if not ceq(c[k], want[k]):
+                    if not ceq(c[k], want[k], tol=(k == "r")):
                         bad("interaction %d (%s): learn received %s=%s, the property demands %s" % (lo + r, mode, names[k], c[k], want[k]),
                             "trace:learn-%s:learn=%s" % (names[k], learn))
                 pos += 1
@@ -430,7 +435,7 @@ def monitor(case, impl):
             for k, v in e.items():
                 if k not in rd:
                     rbad("row %d lacks %r (record=%r, %s)" % (i, k, rec, mode), "rows:missing:%s%s" % (k if k in RESERVED else "extra-field", rsig))
-                elif not ceq(rd[k], v):
+                elif not ceq(rd[k], v, tol=k in ("reward", "rewards")):
                     kind = k if k in RESERVED else "extra-field"
                     rbad("row %d: %r is %s, the property demands %s (%s)" % (i, k, rd[k], v, mode), "rows:value:%s%s%s" % (kind, (":eval=%s" % ev) if k == "reward" else "", rsig))
             if ev and "probability" in rec and exp_rows[i].get("probability") is None and rd.get("probability") is not None:
@@ -571,7 +576,7 @@ def compare_A(case, impl, ans):
         fails.append(F("A", "call trace length: implementation %d, model %d (%s)" % (len(got), len(exp), mode), "A:trace-length"))
     else:
         for i, (g, e) in enumerate(zip(got, exp)):
-            if set(g) != set(e) or not all(ceq(g[k], e[k]) for k in e):
+            if set(g) != set(e) or not all(ceq(g[k], e[k], tol=(k == "r")) for k in e):
                 fails.append(F("A", "call #%d: implementation %s, model %s (%s)" % (i, json.dumps(g)[:200], json.dumps(e)[:200], mode), "A:trace:" + e["m"]))
                 break
     rows = [r for r in (impl_row_for_A(r) for r in impl["rows"]) if r]     # a row holding only timing columns is empty here
@@ -580,7 +585,7 @@ def compare_A(case, impl, ans):
         fails.append(F("A", "row count: implementation %d, model %d (%s)" % (len(rows), len(mrows), mode), "A:rows-count"))
     else:
         for i, (g, e) in enumerate(zip(rows, mrows)):
-            if [k for k, _ in g] != [k for k, _ in e] or not all(ceq(x[1], y[1]) for x, y in zip(g, e)):
+            if [k for k, _ in g] != [k for k, _ in e] or not all(ceq(x[1], y[1], tol=x[0] in ("reward", "rewards")) for x, y in zip(g, e)):
                 fails.append(F("A", "row %d: implementation %s, model %s (%s)" % (i, json.dumps(g)[:200], json.dumps(e)[:200], mode), "A:rows"))
                 break
     return fails
@@ -620,12 +625,16 @@ def gen_num(rng, floaty=None):
     return v
 
 
+# ints that do not survive a round trip through float (and pairs that collide as floats)
+BIG_INTS = [2 ** 53 + 1, 2 ** 53 + 2, 2 ** 53 + 3, 2 ** 60 + 1, 2 ** 60 + 3, 2 ** 63 - 1, 2 ** 64 + 5, -(2 ** 53) - 1, 10 ** 17 + 1]
+
+
 def gen_any(rng, depth=0):
     r = rng.below(10)
     if r < 2:
-        return gen_num(rng)
+        return gen_num(rng) if rng.chance(0.8) else rng.choice(BIG_INTS + [0, {"f": [0, 1]}])
     if r < 4:
-        return rng.choice(["a", "b", "xy", "", "L1", "0"])
+        return rng.choice(["a", "b", "xy", "", "", "L1", "0"])
     if r < 5:
         return None
     if depth < 2 and r < 7:
@@ -641,11 +650,11 @@ def gen_context(rng, style):
     if style == "none":
         return None
     if style == "scalar":
-        return gen_num(rng)
+        return rng.choice([0, {"f": [0, 1]}, rng.choice(BIG_INTS)]) if rng.chance(0.25) else gen_num(rng)
     if style == "str":
-        return rng.choice(["c1", "c2", "ctx"])
+        return rng.choice(["c1", "c2", "ctx", "", ""])
     if style == "dense":
-        items = [gen_num(rng) if rng.chance(0.85) else rng.choice(["u", "v"]) for _ in range(rng.randint(1, 4))]
+        items = [gen_num(rng) if rng.chance(0.85) else rng.choice(["u", "v"]) for _ in range(rng.choice([0, 1, 2, 3, 4]))]
         return {"t": items} if rng.chance(0.5) else {"l": items}
     if style == "sparse":
         return {"d": [[k, gen_num(rng)] for k in rng.sample(["a", "b", "c", "d"], rng.randint(0, 3))]}
@@ -660,11 +669,13 @@ def gen_actions(rng, style, n):
     while len(out) < n and tries < 50:
         tries += 1
         if style == "int":
-            v = rng.choice([0, 1, 2, 3, 4, 5, 7, -1, 10])
+            v = rng.choice([0, 1, 2, 3, 4, 5, 7, -1, 10, 0, 1, {"b": 0}, {"b": 1}])
+        elif style == "bigint":
+            v = rng.choice(BIG_INTS) if rng.chance(0.7) else rng.choice([0, 1, 0, 1, 5])
         elif style == "float":
             v = {"f": [rng.randint(-8, 24), rng.choice([1, 2, 4])]}
         elif style == "str":
-            v = rng.choice(["a", "b", "c", "ab", "abc", "action_1", "xy", "q"])
+            v = rng.choice(["a", "b", "c", "ab", "abc", "action_1", "xy", "q", ""])
         elif style == "dense":
             v = {"t": [fq(rng.randint(0, 3)) for _ in range(2 + (tries % 2))]}
         elif style == "denselist":
@@ -680,13 +691,13 @@ def gen_actions(rng, style, n):
     return out
 
 
-HASHABLE = ("int", "float", "str", "dense")
+HASHABLE = ("int", "bigint", "float", "str", "dense")
 NUMERIC = ("int", "float")
 
 
 def gen_rewards(rng, style, acts, kind):
     if kind == "list":
-        return {"l": [gen_num(rng) for _ in acts]}
+        return {"l": [(rng.choice([0, {"f": [0, 1]}]) if rng.chance(0.15) else gen_num(rng)) for _ in acts]}
     if kind == "L1":
         return {"rfn": {"kind": "L1", "argmax": gen_num(rng)}}
     if kind == "binary":
@@ -747,7 +758,7 @@ def gen_case(rng, tier="quick", boundary=False):
         record = rng.shuffle(rng.subset(RECORD_ALL, 0.45))
     cfg = {"learn": learn, "eval": ev, "record": record}
 
-    astyle = rng.choice(["int", "int", "float", "str", "dense", "denselist", "sparse", "cont"])
+    astyle = rng.choice(["int", "int", "bigint", "float", "str", "dense", "denselist", "sparse", "cont"])
     cstyle = rng.choice(["none", "scalar", "str", "dense", "dense", "sparse", "sparse"])
     n = (0 if rng.chance(0.03) else rng.choice([1, 1, 2, 3, 3, 4, 5, 6, 7])) if not boundary else rng.choice([1, 2, 3, 4])
     has_ctx_key = not (cstyle == "none" and rng.chance(0.5))
@@ -803,7 +814,7 @@ def gen_case(rng, tier="quick", boundary=False):
                 la = (gen_actions(rng, astyle, 1) or ["zz"])[0]
             pairs.append(["action", la])
         if has_reward:
-            pairs.append(["reward", gen_num(rng)])
+            pairs.append(["reward", rng.choice([0, {"f": [0, 1]}]) if rng.chance(0.15) else gen_num(rng)])
         if has_prob:
             p = rng.choice(PROBS)
             pairs.append(["probability", {"f": p} if p != [1, 1] or rng.chance(0.5) else 1])
@@ -817,11 +828,12 @@ def gen_case(rng, tier="quick", boundary=False):
 
     has_score = rng.chance(0.6 if ev == "ips" else 0.2)
     fmt = rng.choice(fmts_for(astyle if has_actions else "int"))
-    kw_keys = rng.sample(["i", "tag", "z"], rng.randint(1, 2)) if fmt.endswith("K") else []
+    kw_keys = rng.sample(["i", "tag", "z"], rng.choice([0, 1, 1, 2, 2])) if fmt.endswith("K") else []   # (a, {}) is legal
     script = []
     noprob = rng.chance(0.08)      # a learner either always or never reports a probability (consistent format)
     for _ in range(rng.randint(1, 4)):
-        script.append({"idx": rng.randint(0, 5), "free": gen_num(rng), "p": None if noprob else rng.choice(PROBS[:7]),
+        script.append({"idx": rng.randint(0, 5), "free": gen_num(rng), "p": None if noprob else rng.choice(PROBS[:7] + [[0, 1], [0, 1]]),
+                       "pint": rng.chance(0.5),
                        "kw": {k: gen_any(rng, 1) for k in kw_keys}, "s": rng.choice([[1, 2], [1, 4], [1, 1], [0, 1], [3, 4]])})
     L = {"fmt": fmt, "has_score": has_score, "batch_mode": rng.choice(["aware", "unaware"]), "kw_keys": kw_keys, "script": script}
     return {"cfg": cfg, "env": env, "learner": L}
@@ -877,6 +889,29 @@ def corpus_cases():
     add("on", "on", dflt, cont, fmt="dAP")
     add("on", "on", allrec, cont, fmt="dA", batch=2)
     add("on", "on", dflt, [])
+    # integer ids that do not survive float(): SafeLearner rewrites 0/1 (and only those) to floats
+    B1, B2 = 2 ** 53 + 1, 2 ** 53 + 3
+    big = [[["context", {"t": [1]}], ["actions", {"l": [0, B1, B2]}], ["rewards", {"l": [{"f": [1, 8]}, {"f": [1, 2]}, {"f": [7, 8]}]}], ["tag", "a"]],
+           [["context", {"t": [2]}], ["actions", {"l": [5, B1, B2]}], ["rewards", {"l": [{"f": [1, 4]}, {"f": [5, 8]}, {"f": [3, 4]}]}], ["tag", "b"]],
+           [["context", {"t": [3]}], ["actions", {"l": [B2, B1, 1]}], ["rewards", {"l": [{"f": [3, 8]}, {"f": [3, 4]}, {"f": [1, 4]}]}], ["tag", ""]]]
+    for fmt in ("A", "AP", "dAP"):
+        add("on", "on", dflt, big, fmt=fmt)
+    bigfn = []
+    for p_ in big:
+        d_ = dict(p_)
+        bigfn.append([kv if kv[0] != "rewards" else
+                      ["rewards", {"rfn": {"kind": "discreteM", "actions": d_["actions"]["l"], "rewards": d_["rewards"]["l"], "default": -1}}] for kv in p_])
+    add("on", "on", dflt, bigfn, fmt="A")
+    # falsy-but-legal learner outputs: probability 0 (float and int), empty kwargs
+    zs = [{"idx": 0, "free": 0, "p": [1, 1], "kw": {}, "s": [1, 2]}, {"idx": 1, "free": 0, "p": [0, 1], "kw": {}, "s": [0, 1]},
+          {"idx": 2, "free": 0, "p": [1, 2], "kw": {}, "s": [1, 2]}, {"idx": 0, "free": 0, "p": [0, 1], "pint": True, "kw": {}, "s": [1, 2]}]
+    falsy = [[["context", c], ["actions", {"l": ["", "b", 0]}], ["rewards", {"l": [0, {"f": [0, 1]}, {"f": [1, 2]}]}], ["action", a], ["reward", r],
+              ["probability", {"f": [1, 2]}], ["round", i]]
+             for i, (c, a, r) in enumerate([(0, "", 0), ("", 0, {"f": [0, 1]}), ({"l": []}, "b", 1), ({"d": []}, 0, 0), ({"f": [0, 1]}, "", 2), ({"t": []}, "b", 0)])]
+    for learn in ("on", None, "off", "ips"):
+        for ev in ("on", "ips"):
+            add(learn, ev, dflt, falsy, fmt="AP", script=zs)
+            add(learn, ev, allrec, falsy, fmt="APK", script=zs)
     add("on", "on", dflt, [p[:2] for p in sim])                   # no rewards -> rejected
     add("off", "on", dflt, sim)                                   # no logged fields -> rejected
     add("ips", "ips", dflt, [[kv for kv in p if kv[0] != "reward"] for p in log])
